@@ -1,9 +1,14 @@
-//! C17 (decided clause only): Id <-> SocketAddrV4 bijection on 48-bit ids, sampled.
+//! C17: (1) Id <-> SocketAddrV4 bijection on 48-bit ids, sampled (Kani harnesses k_id_*);
+//! (2) the per-command clauses (unit SPAWN: contract of `on_command`) observed on the REAL UDP runtime:
+//! `stateright::actor::spawn` is run on localhost sockets with a tiny scripted actor for a bounded time.
 use crate::Ctx;
-use stateright::actor::Id;
-use std::net::{Ipv4Addr, SocketAddrV4};
+use stateright::actor::{spawn, Actor, Id, Out};
+use std::borrow::Cow;
+use std::net::{Ipv4Addr, SocketAddr, SocketAddrV4, UdpSocket};
+use std::time::{Duration, Instant};
 
 pub fn run(ctx: &mut Ctx) {
+    run_spawn(ctx);
     let ips = [0u32, 1, 0x7f000001, 0x0a000001, 0xc0a80001, 0x01020304, 0xffffffff, 0x80000000, 0x00ff00ff];
     let ports = [0u16, 1, 80, 3000, 0x1234, 0xff00, 0x00ff, 65535];
     for &ip in &ips {
@@ -24,6 +29,202 @@ pub fn run(ctx: &mut Ctx) {
                 let addr = SocketAddrV4::from(i);
                 ctx.check(&id, "id-id-roundtrip", &["KX.k_id_id_roundtrip"], Id::from(addr) == i && u32::from(*addr.ip()) == ip && addr.port() == port,
                     format!("{}", addr), format!("{}:{}", Ipv4Addr::from(ip), port));
+            }
+        }
+    }
+}
+
+// ------------------------------------------------------------------------------------------------
+// (2) the UDP runtime, one command at a time (unit SPAWN)
+// ------------------------------------------------------------------------------------------------
+
+#[derive(Clone, Copy, Debug, PartialEq, Eq, Hash)]
+enum Script { SendOnce, Rearm, SetCancel, SetCancelSet }
+#[derive(Clone, Debug, PartialEq, Eq, Hash)]
+enum Tm { Main, Aux }
+
+const PAYLOAD: u32 = 0x0C17_BEEF;
+const ALIVE: u32 = 1;
+const REARMED: u32 = 2;
+const FIRED: u32 = 3;
+
+/// A scripted actor: everything it does is reported to `observer` (a plain UdpSocket of the oracle).
+struct Probe { script: Script, observer: Id }
+
+fn ms(n: u64) -> Duration { Duration::from_millis(n) }
+
+impl Actor for Probe {
+    type Msg = u32;
+    type State = u32;
+    type Timer = Tm;
+    type Random = ();
+    fn on_start(&self, _id: Id, o: &mut Out<Self>) -> u32 {
+        match self.script {
+            Script::SendOnce => { o.send(self.observer, PAYLOAD); }
+            Script::Rearm => {
+                o.set_timer(Tm::Main, ms(300)..ms(300));
+                o.set_timer(Tm::Aux, ms(100)..ms(100));
+            }
+            Script::SetCancel => {
+                o.set_timer(Tm::Main, ms(200)..ms(200));
+                o.cancel_timer(Tm::Main);
+                o.send(self.observer, ALIVE);
+            }
+            Script::SetCancelSet => {
+                o.set_timer(Tm::Main, ms(200)..ms(200));
+                o.cancel_timer(Tm::Main);
+                o.set_timer(Tm::Main, ms(200)..ms(200));
+                o.send(self.observer, ALIVE);
+            }
+        }
+        0
+    }
+    fn on_timeout(&self, _id: Id, state: &mut Cow<u32>, timer: &Tm, o: &mut Out<Self>) {
+        *state.to_mut() += 1;
+        match (self.script, timer) {
+            (Script::Rearm, Tm::Aux) => {
+                // re-arm the main timer ~100 ms after the first arming: the LATEST arming must win
+                o.set_timer(Tm::Main, ms(300)..ms(300));
+                o.send(self.observer, REARMED);
+            }
+            (_, Tm::Main) => { o.send(self.observer, FIRED); }
+            _ => {}
+        }
+    }
+}
+
+fn ser(m: &u32) -> Result<Vec<u8>, String> { Ok(format!("c17:{:08x};", m).into_bytes()) }
+fn de(b: &[u8]) -> Result<u32, String> {
+    let s = std::str::from_utf8(b).map_err(|e| e.to_string())?;
+    let s = s.strip_prefix("c17:").and_then(|s| s.strip_suffix(';')).ok_or("frame")?;
+    u32::from_str_radix(s, 16).map_err(|e| e.to_string())
+}
+
+/// First port in [base, base+40) on which a UDP socket can be bound on 127.0.0.1 right now.
+fn bind_in(base: u16) -> Option<(UdpSocket, u16)> {
+    for p in base..base + 40 {
+        if let Ok(s) = UdpSocket::bind(SocketAddrV4::new(Ipv4Addr::LOCALHOST, p)) { return Some((s, p)); }
+    }
+    None
+}
+
+struct Rig { obs: UdpSocket, actor_addr: SocketAddrV4, t0: Instant }
+
+/// Binds the observer, finds a free port for the actor, starts the real runtime on a detached thread
+/// (`spawn` blocks for ever; the thread dies with the process).
+fn start(script: Script, base: u16) -> Option<Rig> {
+    let (obs, obs_port) = bind_in(base)?;
+    let (probe, actor_port) = bind_in(base + 40)?;
+    drop(probe);
+    let observer = Id::from(SocketAddrV4::new(Ipv4Addr::LOCALHOST, obs_port));
+    let actor_addr = SocketAddrV4::new(Ipv4Addr::LOCALHOST, actor_port);
+    let t0 = Instant::now();
+    std::thread::spawn(move || {
+        let _ = spawn::<Probe, String>(ser, de, vec![(Id::from(actor_addr), Probe { script, observer })]);
+    });
+    Some(Rig { obs, actor_addr, t0 })
+}
+
+/// Next datagram arriving at the observer before `deadline`: (bytes, source, arrival time).
+fn recv_before(s: &UdpSocket, deadline: Instant) -> Option<(Vec<u8>, SocketAddr, Instant)> {
+    let mut buf = [0u8; 2048];
+    loop {
+        let left = deadline.checked_duration_since(Instant::now())?;
+        if left.is_zero() { return None; }
+        s.set_read_timeout(Some(left)).ok()?;
+        match s.recv_from(&mut buf) {
+            Ok((n, src)) => return Some((buf[..n].to_vec(), src, Instant::now())),
+            Err(e) if matches!(e.kind(), std::io::ErrorKind::WouldBlock | std::io::ErrorKind::TimedOut | std::io::ErrorKind::Interrupted) => continue,
+            Err(_) => return None,
+        }
+    }
+}
+
+/// All datagrams until `deadline`, decoded: (message, ms since t0).
+fn collect(r: &Rig, deadline: Instant, stop_at: Option<u32>) -> Vec<(u32, u128)> {
+    let mut v = Vec::new();
+    while let Some((b, _, at)) = recv_before(&r.obs, deadline) {
+        let m = de(&b).unwrap_or(u32::MAX);
+        v.push((m, at.duration_since(r.t0).as_millis()));
+        if Some(m) == stop_at { break; }
+    }
+    v
+}
+
+fn run_spawn(ctx: &mut Ctx) {
+    let cases = ["spawn.send", "spawn.rearm", "spawn.set-cancel", "spawn.set-cancel-set"];
+    if !cases.iter().any(|c| ctx.want(c)) { return; }
+    // is UDP on 127.0.0.1 available at all?
+    let udp_ok = UdpSocket::bind(SocketAddrV4::new(Ipv4Addr::LOCALHOST, 0)).and_then(|a| {
+        let b = UdpSocket::bind(SocketAddrV4::new(Ipv4Addr::LOCALHOST, 0))?;
+        a.send_to(b"x", b.local_addr()?)?;
+        b.set_read_timeout(Some(ms(300)))?;
+        let mut buf = [0u8; 4];
+        b.recv_from(&mut buf).map(|_| ())
+    });
+    if let Err(e) = udp_ok {
+        eprintln!("C17 spawn cases SKIPPED: UDP on 127.0.0.1 is not usable in this sandbox ({})", e);
+        return;
+    }
+
+    // (a) Send: exactly one datagram, to the address encoded by the destination Id, carrying exactly the
+    //     serialized bytes, from the actor's own address
+    if ctx.want("spawn.send") {
+        match start(Script::SendOnce, 42100) {
+            None => eprintln!("C17 spawn.send SKIPPED: no free port in 42100-42179"),
+            Some(r) => {
+                let first = recv_before(&r.obs, r.t0 + ms(1000));
+                let second = recv_before(&r.obs, Instant::now() + ms(250));
+                let want = ser(&PAYLOAD).unwrap();
+                let ok = matches!(&first, Some((b, src, _)) if *b == want && *src == SocketAddr::V4(r.actor_addr)) && second.is_none();
+                ctx.check("spawn.send", "spawn-send-datagram", &["SPAWN.on_command.ensures.send-ok"], ok,
+                    format!("first={:?} second={:?}", first.as_ref().map(|(b, s, _)| (String::from_utf8_lossy(b).to_string(), *s)), second.as_ref().map(|(b, s, _)| (String::from_utf8_lossy(b).to_string(), *s))),
+                    format!("exactly one datagram {:?} from {}", String::from_utf8_lossy(&want), r.actor_addr));
+            }
+        }
+    }
+    // (b) a timer armed with 300ms..300ms at ~0 and re-armed with the same range at ~100 ms fires no earlier than
+    //     400 ms after the start: the latest arming wins (and it does fire)
+    if ctx.want("spawn.rearm") {
+        match start(Script::Rearm, 42200) {
+            None => eprintln!("C17 spawn.rearm SKIPPED: no free port in 42200-42279"),
+            Some(r) => {
+                let got = collect(&r, r.t0 + ms(1300), Some(FIRED));
+                let rearmed = got.iter().find(|(m, _)| *m == REARMED).map(|x| x.1);
+                let fired = got.iter().find(|(m, _)| *m == FIRED).map(|x| x.1);
+                let ok = matches!((rearmed, fired), (Some(a), Some(f)) if a >= 100 && f >= 400 && f >= a + 300);
+                ctx.check("spawn.rearm", "spawn-timer-rearm", &["SPAWN.on_command.ensures.set-timer", "SPAWN.lemma.rearm_latest_arming_wins"], ok,
+                    format!("rearmed at {:?} ms, fired at {:?} ms (events {:?})", rearmed, fired, got),
+                    "re-armed at >= 100 ms; fired once the NEW 300 ms elapsed: at >= 400 ms and >= rearm + 300 ms, before 1300 ms".to_string());
+            }
+        }
+    }
+    // (c) set then cancel: the timer does not fire within 600 ms (the actor is alive: its ALIVE datagram arrives)
+    if ctx.want("spawn.set-cancel") {
+        match start(Script::SetCancel, 42300) {
+            None => eprintln!("C17 spawn.set-cancel SKIPPED: no free port in 42300-42379"),
+            Some(r) => {
+                let got = collect(&r, r.t0 + ms(700), None);
+                let alive = got.iter().any(|(m, _)| *m == ALIVE);
+                let fired = got.iter().find(|(m, _)| *m == FIRED).map(|x| x.1);
+                ctx.check("spawn.set-cancel", "spawn-timer-cancel", &["SPAWN.on_command.ensures.cancel-timer", "SPAWN.lemma.set_then_cancel_is_disarmed"], alive && fired.is_none(),
+                    format!("alive={} fired at {:?} ms (events {:?})", alive, fired, got),
+                    "actor alive, and the cancelled 200 ms timer silent for 700 ms".to_string());
+            }
+        }
+    }
+    // (d) set, cancel, set again: the timer is armed again and fires (no earlier than its 200 ms)
+    if ctx.want("spawn.set-cancel-set") {
+        match start(Script::SetCancelSet, 42400) {
+            None => eprintln!("C17 spawn.set-cancel-set SKIPPED: no free port in 42400-42479"),
+            Some(r) => {
+                let got = collect(&r, r.t0 + ms(1200), Some(FIRED));
+                let alive = got.iter().any(|(m, _)| *m == ALIVE);
+                let fired = got.iter().find(|(m, _)| *m == FIRED).map(|x| x.1);
+                let ok = alive && matches!(fired, Some(f) if f >= 200);
+                ctx.check("spawn.set-cancel-set", "spawn-timer-set-after-cancel", &["SPAWN.on_command.ensures.set-timer", "SPAWN.lemma.cancel_then_set_is_armed"], ok,
+                    format!("alive={} fired at {:?} ms (events {:?})", alive, fired, got),
+                    "actor alive, timer fires at >= 200 ms and before 1200 ms".to_string());
             }
         }
     }
